@@ -417,17 +417,30 @@ def classify(case, impl_out):
 
 
 def search(rng, bad_cases):
-    # widen around a disagreement: one more symbol of exhaustive enumeration and more random signatures.
-    # (no 'm': the engine runs search cases without model_lines_for, so they must not depend on the feature config)
-    for s in product_strings("ysva(){}h", 6, 6):
-        yield p_line(s)
-    for _ in range(30000):
-        s = rand_sig(rng, gv=False)
-        yield p_line(s)
-        yield p_line(mutate(rng, s).replace("m", "y"))
-        yield eq_line(s, s)
-        yield eq_line(s, "(" + s + ")")
-        yield eq_line(s, s[1:-1])
+    # widen around a disagreement, only for the commands that disagreed.
+    # (no 'm'/Maybe: the engine runs search cases without model_lines_for, so they must not depend on the feature config)
+    kinds = {c.split(" ")[0].rstrip("x") for c in bad_cases} or {"p", "eq", "repr"}
+    if "p" in kinds or "deep" in kinds:
+        for s in product_strings("ysva(){}h", 6, 6):
+            yield p_line(s)
+    if kinds & {"p", "eq", "deep"}:
+        for _ in range(30000):
+            s = rand_sig(rng, gv=False)
+            if "eq" not in kinds or "p" in kinds:
+                yield p_line(s)
+                yield p_line(mutate(rng, s).replace("m", "y"))
+            yield eq_line(s, s)
+            yield eq_line(s, "(" + s + ")")
+            yield eq_line(s, s[1:-1])
+    if "repr" in kinds:
+        for a in LEAVES:
+            for b in LEAVES:
+                yield "repr %s %s" % (a, b)
+        for _ in range(20000):
+            sh = rand_shape(rng, rng.randint(1, 4), gv_ok=False)
+            yield "repr %s %s" % (tag_shape(rng, sh), tag_shape(rng, sh))
+            yield ("repr %s %s" % (tag_shape(rng, sh), tag_shape(rng, mutate_shape(rng, sh)))).replace("M", "A")
+            yield "repr %s %s" % (tag_shape(rng, rand_nest(rng, 3)), tag_shape(rng, rand_nest(rng, 3)))
 
 
 ENABLED = True
